@@ -3,6 +3,11 @@
 import json, sys
 ALL = [f"C{i:02d}" for i in range(1, 21)]
 CLAIMED = {
+ "C03": dict(
+   technique="derivation-aware mutation testing over generated core programs: the type-directed generator yields well-typed programs with their derivations; localized mutants carry a by-construction classification (definite error / type preserving) that the checker's verdict must match",
+   text="Exploration. Per generated program (all type formers, both modes: checking sites under annotations, synthesis sites in heads/scrutinees) 10-16 mutants drawn over 16 site kinds x ~60 operators: value/computation of another type, near-miss annotations (other int width, product component changed/dropped/added/swapped, other declaration, Thk/Ret/arrow/forall changed), changed let/parameter/fix annotations, flipped binder kinds, ill-kinded type arguments and annotations, unknown constructors/destructors, eliminations at the wrong former, sort errors, sealed alias vs transparent alias, structural copies of sealed vs transparent declarations and near-miss copies, existential packages (abstract use, concrete use, escape, manifest, wrong witness, mode mismatch). Definite errors must be Rejected by the type checker with >=1 report (not accepted, not a panic, not an earlier phase); type-preserving edits and the unmutated program must be Checked.",
+   note="trusted base: generator soundness (cross-checked by C02 running every program) and the operator catalogue in core/mutate.rs, each operator validated by hand against the documented rules; no second type checker is used, so programs outside the generated core are not classified",
+   ref="§3 C03"),
  "C07": dict(
    technique="metamorphic testing over generated core programs: naming strategies (unique / maximally shadowing / reused per scope / rotated) must not change verdict or behaviour versus the reference machine; capture probes",
    text="Exploration. Generated core programs (all binders: let, do, fn, match/comatch arms, fix, type binders, declarations) are printed under four binder-naming strategies that the reference semantics (own CK machine with structural environments) cannot distinguish; each print must be accepted and run to the reference (stdout, exit). Hand-written capture probes per binder form pin the expected answer for shadowing in bindee/body positions.",
